@@ -94,7 +94,9 @@ theorem eofClosure_acc (k : Nat) (h : Step cx s0 s) :
 theorem cancelPromises_acc (l : List Nat) (h : Step cx s0 s) :
     Step cx s0 (l.foldl (fun s promise =>
         let s := s.modStream promise fun st => { st with isPendingAccept := false }
-        (s.transition promise fun s => (s.maybeCancel promise, ())).1) s) := by
+        (s.transition promise fun s =>
+          let s := s.maybeCancel promise
+          (if (s.stream promise).refCount == 0 then s.releaseClosedCapacity promise else s, ())).1) s) := by
   induction l generalizing s with
   | nil => exact h
   | cons p l ih =>
